@@ -242,10 +242,11 @@ pub fn solve<F: Function>(
             let adjusted = &jt_j
                 + damping * nalgebra::DMatrix::from_diagonal(&jt_j.diagonal());
 
-            let delta = adjusted
-                .svd(true, true)
-                .solve(&jt_r, f32::EPSILON)
-                .map_err(SingularMatrix)?;
+            // Singular values are cut off relative to the largest one, so
+            // that the solve does not depend on the units of the equations
+            let svd = adjusted.svd(true, true);
+            let eps = f32::EPSILON * svd.singular_values.max();
+            let delta = svd.solve(&jt_r, eps).map_err(SingularMatrix)?;
 
             let err = solver.get_err(&cur, delta.as_slice());
             if err > prev_err {
